@@ -10,10 +10,11 @@
 (***************************************************************************)
 EXTENDS SqlFlat, Sources, Json
 
-CONSTANTS MaxPre, LeftSrc, RightSrc, EmitAll     \* EmitAll: also print every join with the catalogue's decision (conformance with the code's decisions)
+CONSTANTS MaxPre, LeftSrc, RightSrc, ThirdSrc, EmitAll     \* EmitAll: also print every join with the catalogue's decision (conformance with the code's decisions)
 
-VARIABLES tl, tr, ql, qr, cl, cr, nid, steps, trace, phase
-vars == <<tl, tr, ql, qr, cl, cr, nid, steps, trace, phase>>
+(* t12, q12, c12: sequential meaning, merged SELECT and Cache fields after the first join (a second join follows) *)
+VARIABLES tl, tr, ql, qr, cl, cr, nid, steps, trace, phase, t12, q12, c12, how1
+vars == <<tl, tr, ql, qr, cl, cr, nid, steps, trace, phase, t12, q12, c12, how1>>
 
 Pre(t, side) ==
     LET a == IF "a" \in VisNames(t) THEN <<ByName(t)["a"]>> ELSE <<>>
@@ -34,6 +35,7 @@ Pre(t, side) ==
 Init == /\ tl = SrcTables[LeftSrc] /\ tr = SrcTables[RightSrc]
         /\ ql = Q0(tl) /\ qr = Q0(tr) /\ cl = Cs0 /\ cr = Cs0
         /\ nid = 100 /\ steps = 0 /\ trace = <<>> /\ phase = "pre"
+        /\ t12 = tl /\ q12 = Q0(tl) /\ c12 = Cs0 /\ how1 = ""
 
 ApplyPre(t, m, n) == CASE m.v = "mutate" -> Mutate(t, m.kv, n)
                        [] m.v = "filter" -> Filter(t, m.ps)
@@ -58,7 +60,7 @@ PreStep ==
             /\ tr' = r.t /\ qr' = Acc(qr, m, nid, r.t) /\ cr' = CsUpdate(cr, tr, m)
             /\ nid' = nid + NewIds(m)
             /\ trace' = Append(trace, m) /\ UNCHANGED <<tl, ql, cl>>
-    /\ steps' = steps + 1 /\ UNCHANGED phase
+    /\ steps' = steps + 1 /\ UNCHANGED <<phase, t12, q12, c12, how1>>
 
 (* Cache.requires_subquery, Join rules, for one side (isRight: the `node.child not in derived_from` case) *)
 RqJoin(c, t, how, isRight) ==
@@ -74,11 +76,12 @@ JoinKeysVisible == ByName(SrcTables[LeftSrc])["a"] \in VisSet(tl) /\ ByName(SrcT
 JoinOn == <<Fn2("eq", Col(ByName(SrcTables[LeftSrc])["a"]), Col(ByName(SrcTables[RightSrc])["a"]))>>
 
 (* the merged SELECT of backend/sql.py *)
+JoinBase(how) == Join(ql.base, qr.base, JoinOn \o (IF how = "left" THEN qr.where ELSE <<>>), how, "_r")
+JoinWhere(how) == IF how = "left" THEN ql.where ELSE ql.where \o qr.where
 JoinFlat(how) ==
-    LET J == Join(ql.base, qr.base, JoinOn \o (IF how = "left" THEN qr.where ELSE <<>>), how, "_r")
+    LET J == JoinBase(how)
         D == IF J.ok THEN MutAll(Ok([J.t EXCEPT !.part = <<>>]), ql.defs \o qr.defs, 1) ELSE J
-        W == IF how = "left" THEN ql.where ELSE ql.where \o qr.where
-    IN FilAll(D, W, 1)
+    IN FilAll(D, JoinWhere(how), 1)
 
 JoinSeq(how) == Join(tl, tr, JoinOn, how, "_r")
 
@@ -91,7 +94,11 @@ DecisionStep ==      \* conformance mode: every reachable pair of sides x join k
             /\ PrintT(ToJson([left |-> SrcTables[LeftSrc].name, right |-> SrcTables[RightSrc].name, pre |-> trace, how |-> how,
                                needL |-> needL, needR |-> needR]))
             /\ phase' = "decided"
-    /\ UNCHANGED <<tl, tr, ql, qr, cl, cr, nid, steps, trace>>
+    /\ UNCHANGED <<tl, tr, ql, qr, cl, cr, nid, steps, trace, t12, q12, c12, how1>>
+
+(* Cache.update for a Join node (pipe/cache.py): limit / group_by / is_summarized are reset; is_filtered: see JoinFilt *)
+JoinFilt(a, b, how) == a.filt \/ (how = "inner" /\ b.filt)      \* the WHERE list of an inner join holds the right side's predicates too (F27)
+JoinCs(a, b, how) == [Cs0 EXCEPT !.filt = JoinFilt(a, b, how)]
 
 JoinStep ==
     /\ phase = "pre" /\ ~EmitAll
@@ -103,11 +110,36 @@ JoinStep ==
          IN /\ S.ok /\ needL = "" /\ needR = ""
             /\ (IF SameVisible(F, S.t) THEN TRUE
                 ELSE PrintT(ToJson([left |-> SrcTables[LeftSrc].name, right |-> SrcTables[RightSrc].name, pre |-> trace, how |-> how])))
-            /\ phase' = IF SameVisible(F, S.t) THEN "ok" ELSE "bad"
+            /\ phase' = IF SameVisible(F, S.t) THEN "j1" ELSE "bad"
+            /\ how1' = how /\ t12' = S.t
+            /\ q12' = [Q0(S.t) EXCEPT !.base = [JoinBase(how).t EXCEPT !.part = <<>>], !.defs = ql.defs \o qr.defs, !.where = JoinWhere(how)]
+            /\ c12' = JoinCs(cl, cr, how)
     /\ UNCHANGED <<tl, tr, ql, qr, cl, cr, nid, steps, trace>>
 
-Next == PreStep \/ JoinStep \/ DecisionStep
+(* a second join of the result with a fresh third table *)
+Third == SrcTables[ThirdSrc]
+JoinOn2 == <<Fn2("eq", Col(ByName(SrcTables[LeftSrc])["a"]), Col(ByName(Third)["a"]))>>
+Join2Flat(how2) ==
+    LET J == Join(q12.base, Third, JoinOn2, how2, "_s")
+        D == IF J.ok THEN MutAll(Ok([J.t EXCEPT !.part = <<>>]), q12.defs, 1) ELSE J
+    IN FilAll(D, q12.where, 1)
+Join2Seq(how2) == Join(t12, Third, JoinOn2, how2, "_s")
 
-View == <<tl, tr, ql, qr, cl, cr, nid, steps, phase>>
+Join2Step ==
+    /\ phase = "j1" /\ ThirdSrc # 0 /\ ByName(SrcTables[LeftSrc])["a"] \in VisSet(t12)
+    /\ \E how2 \in {"inner", "left", "full"} :
+         LET need == RqJoin(c12, t12, how2, FALSE)
+             S == Join2Seq(how2)
+             F == Join2Flat(how2)
+         IN /\ S.ok /\ need = ""
+            /\ (IF SameVisible(F, S.t) THEN TRUE
+                ELSE PrintT(ToJson([left |-> SrcTables[LeftSrc].name, right |-> SrcTables[RightSrc].name, third |-> Third.name,
+                                    pre |-> trace, how |-> how1, how2 |-> how2])))
+            /\ phase' = IF SameVisible(F, S.t) THEN "ok2" ELSE "bad2"
+    /\ UNCHANGED <<tl, tr, ql, qr, cl, cr, nid, steps, trace, t12, q12, c12, how1>>
+
+Next == PreStep \/ JoinStep \/ Join2Step \/ DecisionStep
+
+View == <<tl, tr, ql, qr, cl, cr, nid, steps, phase, how1>>
 
 =============================================================================
